@@ -78,6 +78,12 @@ package subscription
 //@   at call EventHandler.Emit: assert {the.completion.goes.to.the.stopped.id} arg2 == id
 //@   modifies *, count(emitted), count(terminalEmitted)
 
+// the clean-up of a subscription goroutine returns the executor to the pool; it does not touch the registry either
+//@ func ExecutorEngine.startSubscription$1
+//@   at call ExecutorPool.Put: assert {the.executor.of.this.operation.goes.back.to.the.pool} arg1 == executor
+//@   at call? subscriptionCancellations.Cancel: assert {a.subscription.goroutine.never.releases.an.id.by.name.a.successor.may.own.it.by.then} false
+//@   modifies *, count(*)
+
 //@ func ExecutorEngine.handleNonSubscriptionOperation
 //@   requires e != nil
 //@   at call EventHandler.Emit: assert {events.carry.the.operation.id.and.go.to.the.operations.handler} arg2 == id && arg0 == eventHandler
